@@ -43,7 +43,7 @@ for pid, d in props.items():
     wt = '%s/%s' % (rd, pid); out = '%s/%s.out' % (rd, pid)
     avoid = ''
     prev = []
-    for sfx in ['', 'b', 'c', 'd']:
+    for sfx in ['', 'b', 'c', 'd', 'e']:
         mp = '%s/seeded/%s%s/meta.json' % (root, pid, sfx)
         if suffix and sfx < suffix and os.path.exists(mp):
             prev.append(json.load(open(mp))['summary'].replace('\n', ' '))
